@@ -6,6 +6,7 @@ package main
 
 import (
 	"fmt"
+	"sort"
 	"go/ast"
 	"go/constant"
 	"go/parser"
@@ -552,6 +553,9 @@ func (env *ExprEnv) selector(e *ast.SelectorExpr) Val {
 
 func (env *ExprEnv) selectField(x Val, name string) Val {
 	t := env.t
+	if x.K == KIface && x.T == nil {
+		return Val{K: KFunc, S: t.mthTerm(name, x.S), T: nil}
+	}
 	if x.T == nil {
 		return env.fail("selector .%s on value without type", name)
 	}
@@ -569,10 +573,8 @@ func (env *ExprEnv) selectField(x Val, name string) Val {
 	}
 	obj, index, _ := types.LookupFieldOrMethod(x.T, true, env.pkgTypes(), name)
 	if obj == nil {
-		// unexported field of another package: retry with that package
-		if n, ok := types.Unalias(base).(*types.Named); ok && n.Obj().Pkg() != nil {
-			obj, index, _ = types.LookupFieldOrMethod(x.T, true, n.Obj().Pkg(), name)
-		}
+		// unexported field of another package (reached through embedding): try the module's packages
+		obj, index = env.lookupAnyPkg(x.T, name)
 	}
 	if obj == nil {
 		// ghost field of an embedded type?
@@ -589,6 +591,33 @@ func (env *ExprEnv) selectField(x Val, name string) Val {
 		cur = env.fieldStep(cur, fi)
 	}
 	return cur
+}
+
+func (env *ExprEnv) lookupAnyPkg(T types.Type, name string) (types.Object, []int) {
+	base := T
+	if p := derefType(base); p != nil {
+		base = p
+	}
+	if n, ok := types.Unalias(base).(*types.Named); ok && n.Obj().Pkg() != nil {
+		if obj, index, _ := types.LookupFieldOrMethod(T, true, n.Obj().Pkg(), name); obj != nil {
+			return obj, index
+		}
+	}
+	var paths []string
+	for p := range env.t.eng.allpkgs {
+		paths = append(paths, p)
+	}
+	sort.Strings(paths)
+	for _, p := range paths {
+		pk := env.t.eng.allpkgs[p]
+		if pk.Types == nil {
+			continue
+		}
+		if obj, index, _ := types.LookupFieldOrMethod(T, true, pk.Types, name); obj != nil {
+			return obj, index
+		}
+	}
+	return nil, nil
 }
 
 func (env *ExprEnv) fieldStep(cur Val, fi int) Val {
